@@ -13,8 +13,11 @@ import (
 	"os"
 	"os/exec"
 	"path/filepath"
+	"regexp"
+	"runtime/debug"
 	"sort"
 	"strings"
+	"syscall"
 	"time"
 
 	zygo "github.com/glycerine/zygomys/v9/zygo"
@@ -23,51 +26,62 @@ import (
 type crashCase struct {
 	ID    string   `json:"id"`
 	Src   string   `json:"src"`   // which enumeration produced it
-	Entry string   `json:"entry"` // eval | loadrun | parse | macexpand | seq
+	Entry string   `json:"entry"` // eval | loadrun | parse | macexpand | seq | repl
+	Cfg   string   `json:"cfg"`   // sandbox: NewZlispSandbox+StandardSetup | full: NewZlisp+StandardSetup
 	Texts []string `json:"texts"`
-	Outs  []any    `json:"outs,omitempty"` // one outcome per text: ["val"] ["err"] ["more"] ["panic",msg] ["nilres"] ["budget"] ["died",msg]
+	// what the generator knows about the program and CrashTrace's named deviations are stated in terms of:
+	// ["none"] | ["exit", n]: the one text is the call (exit n) | ["chan", capacity, [ops]]: the one text makes a
+	// channel of that capacity, reachable by nobody else, and performs these "send" / "recv" operations on it in order
+	Prog []any `json:"prog"`
+	// one outcome per text: ["val"] ["err"] ["more"] ["budget"] ["eof"] | ["panic",msg] ["nilres"] ["died",msg]
+	// ["exited",status] ["hung"] | ["notrun"]
+	Outs []any `json:"outs,omitempty"`
 }
 
 var specialForms = []string{"and", "or", "cond", "quote", "def", "mdef", "fn", "defn", "begin", "let", "letseq", "assert",
-	"defmac", "macexpand", "syntaxQuote", "for", "set", "break", "continue", "newScope", "package", "return",
+	"defmac", "macexpand", "syntaxQuote", "for", "set", "break", "continue", "newScope", "package", "return", "include", "_ls",
 	"infix", "struct", "func", "method", "interface", "var", "range", "defmap", "++", "+="}
 
-var argShapes = []string{"x", "1", `"s"`, "nil", "(list 1)", "()", "[1 2]", "[]", "{a: 1}", "a.b", "(quote q)", "(and)", "(fn [a] a)", "a:", "%"}
+var argShapes = []string{"x", "1", `"s"`, "nil", "(list 1)", "()", "[1 2]", "[]", "{a: 1}", "a.b", "(quote q)", "(and)", "(fn [a] a)", "a:", "%", `([] \ 2)`}
 
-var valuePalette = []string{"0", "1", "-1", `"s"`, `""`, "nil", "true", "[]", "[1 2]", "(list 1 2)", "(hash a: 1)", "(quote q)", "1.5", "'c'", "(fn [a] a)"}
+// the last value is a size that Go's own range checks accept and no machine has the memory for
+var valuePalette = []string{"0", "1", "-1", `"s"`, `""`, "nil", "true", "[]", "[1 2]", "(list 1 2)", "(hash a: 1)", "(quote q)", "1.5", "'c'", "(fn [a] a)", hugeSize}
 
-func crashEnv() *zygo.Zlisp {
-	env := zygo.NewZlispSandbox()
+const hugeSize = "1000000000000"
+
+func crashEnv(cfg string) *zygo.Zlisp {
+	var env *zygo.Zlisp
+	if cfg == "full" {
+		env = zygo.NewZlisp()
+	} else {
+		env = zygo.NewZlispSandbox()
+	}
 	env.StandardSetup()
 	return env
 }
 
-// names callable in the interpreter used by the in-process entry points
-func crashUniverse() []string {
-	env := crashEnv()
-	skip := map[string]bool{"exit": true, "sys": true, "system": true, "sleep": true, "readf": true, "slurpf": true,
-		"source": true, "req": true, "import": true, "owritef": true, "writef": true, "save": true, "bsave": true, "bload": true,
-		"greenpack": true, "input": true, "repl": true, "stdin": true, "timeit": true, "go": true, "<!": true, "!>": true, "send": true,
-		"makeChan": true, "chdir": true, "removefile": true, "mkdir": true, "togo": false}
+// names callable in an interpreter of the given configuration. Nothing is left out: the workers run in a
+// throw-away directory with an empty standard input, so files, the shell and the readers of standard input are
+// harmless (the shell commands of the palette are inert words). The only restriction is on arguments:
+// (sleep n) returns after n milliseconds, which for the huge size is a long time and not a call that does not
+// return, so sleep is not given the huge size.
+func crashUniverse(cfg string) []string {
+	env := crashEnv(cfg)
 	var out []string
 	for _, n := range env.VerifGlobalNames() {
 		k := env.VerifGlobalKind(n)
-		if (k == "gofunc" || k == "builder" || k == "closure") && !skip[n] {
+		if k == "gofunc" || k == "builder" || k == "closure" {
 			out = append(out, n)
 		}
 	}
-	for _, n := range env.VerifMacroNames() {
-		if !skip[n] {
-			out = append(out, n)
-		}
-	}
+	out = append(out, env.VerifMacroNames()...)
 	sort.Strings(out)
 	return out
 }
 
+func paletteOK(name, val string) bool { return !(name == "sleep" && val == hugeSize) }
+
 func outcomeOf(fn func() (zygo.Sexp, error)) (o any) {
-	zygo.VerifSetBudget(200000)
-	defer zygo.VerifSetBudget(-1)
 	defer func() {
 		if r := recover(); r != nil {
 			o = []any{"panic", trunc(fmt.Sprint(r), 200)}
@@ -90,12 +104,24 @@ func outcomeOf(fn func() (zygo.Sexp, error)) (o any) {
 	return []any{"val"}
 }
 
+const crashBudget = 200000
+
 func runCrashCase(c *crashCase) {
-	env := crashEnv()
-	defer env.Close()
 	c.Outs = nil
+	if c.Entry == "repl" {
+		for _, t := range c.Texts {
+			c.Outs = append(c.Outs, runReplChild(c.Cfg, expandText(t)))
+		}
+		return
+	}
+	env := crashEnv(c.Cfg)
+	defer env.Close()
 	for _, t := range c.Texts {
+		t = expandText(t)
 		var o any
+		if os.Getenv("ZV_NOBUDGET") == "" {
+			zygo.VerifSetBudget(crashBudget)
+		}
 		switch c.Entry {
 		case "eval", "seq":
 			o = outcomeOf(func() (zygo.Sexp, error) { return env.EvalString(t) })
@@ -122,17 +148,109 @@ func runCrashCase(c *crashCase) {
 		case "macexpand":
 			o = outcomeOf(func() (zygo.Sexp, error) { return env.EvalString("(macexpand " + t + ")\n") })
 		}
+		zygo.VerifSetBudget(-1)
 		c.Outs = append(c.Outs, o)
 	}
 }
+
+// ---- the REPL entry point: zygo.Repl reads the lines of the text from its standard input (no line editor),
+// evaluates and echoes them one by one and ends the process with status 0 when the input ends. It runs in a
+// child of the worker; the outcome is how that process ended.
+
+func replChildMain(cfg string) int {
+	debug.SetMaxStack(workerMaxStack)
+	env := crashEnv(cfg)
+	zc := zygo.NewZlispConfig("zygo")
+	zc.NoLiner = true
+	zc.Quiet = true
+	zc.Prompt = ""
+	zc.Sandboxed = cfg != "full"
+	zygo.VerifSetBudget(10 * crashBudget)
+	zygo.Repl(env, zc) // ends the process at the end of the input; returns after a .quit line
+	return 0
+}
+
+func runReplChild(cfg, text string) any {
+	self, _ := os.Executable()
+	cmd := exec.Command(self, "crash", "-replchild", "-cfg", cfg)
+	cmd.Stdin = strings.NewReader(text)
+	cmd.Env = append(os.Environ(), "GOMAXPROCS=2")
+	var stderr bytes.Buffer
+	cmd.Stderr = &stderr
+	if err := cmd.Start(); err != nil {
+		return []any{"notrun"}
+	}
+	done := make(chan error, 1)
+	go func() { done <- cmd.Wait() }()
+	select {
+	case <-done:
+	case <-time.After(hungLimit):
+		cmd.Process.Kill()
+		<-done
+		return []any{"hung"}
+	}
+	if cmd.ProcessState.Success() {
+		return []any{"eof"}
+	}
+	return endOfProcess(cmd.ProcessState, stderr.String())
+}
+
+// endOfProcess classifies a process that ended other than by returning: "exited" is an orderly end with a
+// status (os.Exit was called), "died" a Go panic or fatal error, or a signal.
+func endOfProcess(ps *os.ProcessState, stderr string) any {
+	if ps == nil {
+		return []any{"died", "no process state " + trunc(stderr, 300)}
+	}
+	crashed := false
+	for _, mark := range []string{"panic:", "fatal error:", "runtime:", "goroutine "} {
+		if strings.Contains(stderr, mark) {
+			crashed = true
+		}
+	}
+	if ws, ok := ps.Sys().(syscall.WaitStatus); ok && ws.Signaled() {
+		crashed = true
+	}
+	if !crashed {
+		return []any{"exited", ps.ExitCode()}
+	}
+	msg := stderr
+	for _, mark := range []string{"fatal error:", "panic:"} {
+		if i := strings.Index(msg, mark); i >= 0 {
+			msg = msg[i:]
+			break
+		}
+	}
+	return []any{"died", fmt.Sprintf("exit=%d %s", ps.ExitCode(), trunc(msg, 300))}
+}
+
+// Go's bound on a goroutine stack is 1 GB; the workers lower it, so that a recursion without end (or as deep as
+// its input is long) is over in a moment and does not touch a gigabyte of memory. The bound is still far above
+// what any evaluation of a generated case needs when the recursion is bounded.
+var workerMaxStack = func() int {
+	mb := 192
+	if v := os.Getenv("ZV_MAXSTACK_MB"); v != "" { // development aid
+		fmt.Sscanf(v, "%d", &mb)
+	}
+	return mb << 20
+}()
+
+var hungLimit = func() time.Duration {
+	n := 20
+	if v := os.Getenv("ZV_HUNG_S"); v != "" { // development aid
+		fmt.Sscanf(v, "%d", &n)
+	}
+	return time.Duration(n) * time.Second
+}()
 
 // ---- case generation
 
 func crashCases(c *common) []crashCase {
 	var cases []crashCase
-	add := func(src, entry string, texts ...string) {
-		cases = append(cases, crashCase{ID: fmt.Sprintf("c%d", len(cases)), Src: src, Entry: entry, Texts: texts})
+	addx := func(src, entry, cfg string, prog []any, texts ...string) {
+		cases = append(cases, crashCase{ID: fmt.Sprintf("c%d", len(cases)), Src: src, Entry: entry, Cfg: cfg, Prog: prog, Texts: texts})
 	}
+	none := []any{"none"}
+	add := func(src, entry string, texts ...string) { addx(src, entry, "sandbox", none, texts...) }
 	entries := []string{"eval", "loadrun", "parse", "macexpand"}
 	// (1) every special form x arity 0..3 x argument shapes (arity 3: shapes sampled)
 	for _, f := range specialForms {
@@ -150,31 +268,79 @@ func crashCases(c *common) []crashCase {
 			}
 		}
 	}
-	// (2) every callable name x arity 0..3 x value palette
-	uni := crashUniverse()
-	for ui, name := range uni {
-		add("builtin", "eval", "("+name+")\n")
+	// (2) every callable name x arity 0..3 x value palette, in the sandboxed interpreter; the names that only the
+	// full interpreter has (files, shell, environment, Go values, exit) in the full interpreter
+	uni := crashUniverse("sandbox")
+	inSandbox := map[string]bool{}
+	for _, n := range uni {
+		inSandbox[n] = true
+	}
+	type cname struct{ cfg, name string }
+	var names []cname
+	for _, n := range uni {
+		names = append(names, cname{"sandbox", n})
+	}
+	for _, n := range crashUniverse("full") {
+		if !inSandbox[n] {
+			names = append(names, cname{"full", n})
+		}
+	}
+	for ui, cn := range names {
+		name := cn.name
+		addb := func(text string) { addx("builtin", "eval", cn.cfg, none, text) }
+		if cn.cfg == "full" && name == "exit" {
+			// the call whose purpose is to end the process: the generator says which status is asked for
+			for _, n := range []int{0, 1, 7, -1, 255, 256} {
+				addx("builtin", "eval", "full", []any{"exit", n}, fmt.Sprintf("(exit %d)\n", n))
+			}
+			for _, a := range []string{"", `"s"`, "nil", "1.5", "[1]", "1 2", "(quote q)"} {
+				addb(fmt.Sprintf("(exit %s)\n", a))
+			}
+			continue
+		}
+		addb("(" + name + ")\n")
 		for i, a := range valuePalette {
-			add("builtin", "eval", fmt.Sprintf("(%s %s)\n", name, a))
+			if !paletteOK(name, a) {
+				continue
+			}
+			addb(fmt.Sprintf("(%s %s)\n", name, a))
 			for j, b := range valuePalette {
+				if !paletteOK(name, b) {
+					continue
+				}
 				if c.thorough() || hashSel(c.seed, ui*1000+i*20+j, 1, 3) {
-					add("builtin", "eval", fmt.Sprintf("(%s %s %s)\n", name, a, b))
+					addb(fmt.Sprintf("(%s %s %s)\n", name, a, b))
 				}
 				if c.thorough() && hashSel(c.seed, ui*1000+i*20+j, 1, 8) {
-					add("builtin", "eval", fmt.Sprintf("(%s %s %s %s)\n", name, a, b, valuePalette[(i+j)%len(valuePalette)]))
+					addb(fmt.Sprintf("(%s %s %s %s)\n", name, a, b, valuePalette[(i+j)%(len(valuePalette)-1)]))
 				}
 			}
 		}
 		// used as a value / in infix / as an index target
-		add("builtin", "eval", fmt.Sprintf("{%s}\n", name))
-		add("builtin", "eval", fmt.Sprintf("{a := [1 2]; a[%s]}\n", name))
-		add("builtin", "eval", fmt.Sprintf("(map %s [1 2])\n", name))
-		add("builtin", "eval", fmt.Sprintf("(apply %s [1 2])\n", name))
+		addb(fmt.Sprintf("{%s}\n", name))
+		addb(fmt.Sprintf("{a := [1 2]; a[%s]}\n", name))
+		addb(fmt.Sprintf("(map %s [1 2])\n", name))
+		addb(fmt.Sprintf("(apply %s [1 2])\n", name))
+	}
+	// the special forms the sandbox refuses or that show the interpreter's state, in the full interpreter
+	for _, f := range []string{"include", "_ls"} {
+		addx("form", "eval", "full", none, "("+f+")\n")
+		for _, a := range argShapes {
+			addx("form", "eval", "full", none, fmt.Sprintf("(%s %s)\n", f, a))
+			addx("form", "eval", "full", none, fmt.Sprintf("(defn f [] (%s %s %s))\n", f, a, a))
+		}
 	}
 	// (2b) index / slice / positional forms x boundary indices x containers, reads and writes,
 	// at top level and inside a function (a panic in an instruction is not under a builtin's recover)
 	conts := []string{"[1 2 3]", "[]", `"abc"`, `""`, "(list 1 2 3)", "(hash a: 1 b: 2)", "(hash)", "nil", "5", "(raw \"xyz\")"}
-	idxs := []string{"-4", "-3", "-1", "0", "1", "2", "3", "99", "1.5", `"k"`, "a:", "nil", "[0]", "9223372036854775807", "-9223372036854775808"}
+	idxs := []string{"-4", "-3", "-1", "0", "1", "2", "3", "99", "1.5", `"k"`, "a:", "nil", "[0]", "9223372036854775807", "-9223372036854775808", hugeSize}
+	for _, ix := range idxs {
+		// the size of an array type, of an array, of a channel
+		add("index", "eval", fmt.Sprintf("([%s] int64)\n", ix))
+		add("index", "eval", fmt.Sprintf("(def t ([%s] string))\n(var v t)\n(str v)\n", ix))
+		add("index", "eval", fmt.Sprintf("(len (makeArray %s))\n(len (makeArray %s 0))\n", ix, ix))
+		add("index", "eval", fmt.Sprintf("(def ch (makeChan %s))\n(str ch)\n", ix))
+	}
 	for ci, ct := range conts {
 		for ii, ix := range idxs {
 			forms := []string{
@@ -263,11 +429,11 @@ func crashCases(c *common) []crashCase {
 			case 0:
 				return fmt.Sprintf("(%s %s %s)\n", pick(r, specialForms), pick(r, argShapes), pick(r, argShapes))
 			case 1:
-				return fmt.Sprintf("(%s %s)\n", pick(r, uni), pick(r, valuePalette))
+				return fmt.Sprintf("(%s %s)\n", pick(r, uni), pick(r, valuePalette[:len(valuePalette)-1]))
 			case 2:
 				return pick(r, toks) + pick(r, toks) + pick(r, toks)
 			}
-			return fmt.Sprintf("(%s %s %s)\n", pick(r, uni), pick(r, valuePalette), pick(r, valuePalette))
+			return fmt.Sprintf("(%s %s %s)\n", pick(r, uni), pick(r, valuePalette[:len(valuePalette)-1]), pick(r, valuePalette[:len(valuePalette)-1]))
 		}
 		add("seq", "seq", mk(), mk(), "(+ 1 2)\n")
 	}
@@ -293,7 +459,235 @@ func crashCases(c *common) []crashCase {
 			add("corpus", "eval", mutate(src, rr))
 		}
 	}
+	// (6) values that contain themselves. aset, hset and the infix assignment accept the container itself as the
+	// element; every callable name is applied to such a value, every special form is given one, and the value meets
+	// the routes on which the interpreter renders, types or compares values without being asked to: a second
+	// definition of a name, the creation of a closure in a scope that holds it, the echo of the REPL.
+	cyc := []string{
+		"(def cy [1])\n(aset cy 0 cy)\n",
+		"(def cy (hash))\n(hset cy %k cy)\n",
+		"(def cy [1 2])\n(def cz [cy])\n(aset cy 1 cz)\n",
+		"(def cy (hash a: 1))\n(hset cy b: [cy 2])\n",
+		"{ cy = [1 2 3]; cy[0] = cy }\n",
+	}
+	for ui, name := range uni {
+		calls := []string{"(%s cy)", "(%s cy cy)", "(%s 1 cy)", "(%s cy 1)", "(%s (quote k) cy)", "(%s cy 0 cy)"}
+		for ki, call := range calls {
+			for si, pre := range cyc {
+				if c.thorough() || (ui+ki)%len(cyc) == si && (ki < 2 || hashSel(c.seed, ui*10+ki, 1, 3)) {
+					add("cyclic", "seq", pre, strings.ReplaceAll(call, "%s", name)+"\n", "(+ 1 2)\n")
+				}
+			}
+		}
+	}
+	cycRoutes := []string{
+		"(def cb [cy])\n(def cb [3])\n", "(def cy 2)\n", "(set cy 2)\n", "{cy = 2}\n", "(def cb cy)\n(set cb (hash))\n",
+		"(defn g [] (def h2 cy) (fn [] 1))\n(g)\n", "(let [z cy] (fn [] 1))\n", "(defn g [z] (fn [] z))\n(def k (g cy))\n(k)\n",
+		"(defn g [z] z)\n(g cy)\n(g z: cy)\n", "(func tg [a:int64] [] a)\n(tg cy)\n", "(var vv int64)\n(set vv cy)\n",
+		"(eval cy)\n", "(eval (list (quote str) cy))\n", "(defmac cm [] cy)\n(cm)\n", "(defmac cm [] (list (quote list) cy))\n(cm)\n",
+		"(macexpand cy)\n", "^(1 ~cy)\n", "^(1 ~@cy)\n", "(quote cy)\n", "[cy cy]\n", "(list cy cy)\n", "{cy}\n", "{cy[0]}\n", "{cy[0][0]}\n", "cy.a\n",
+		"(hset (hash) cy 1)\n", "(hset (hash) [cy] 1)\n", "(def hh (hash))\n(hset hh 1 cy)\n(hget hh 1)\n(hdel hh 1)\n(keys hh)\n",
+		"(hash cy 1)\n", "(struct CyS [(field a: int64)])\n(CyS a: cy)\n", "(defmap cyd)\n(cyd a: cy)\n", "(assert (== cy 1))\n",
+		"(range k v cy (str k))\n", "(for [(def i 0) (< i 2) (def i (+ i 1))] cy)\n", "(cond cy cy cy)\n", "(and cy cy)\n", "(mdef a b cy)\n",
+		"(-> cy a:)\n", "(sort (fn [a b] (< a b)) [cy cy])\n", "(map (fn [x] x) cy)\n", "(apply str cy)\n", "(foo cy)\n", "(cy cy)\n", "(1 cy)\n",
+		"(package \"cyp\" { A := cy })\n", "(return cy)\n", "(stop cy)\n",
+	}
+	for ri, route := range cycRoutes {
+		for si, pre := range cyc {
+			if c.thorough() || si < 2 || (ri+si)%3 == 0 {
+				add("cyclic", "seq", pre, route, "(+ 1 2)\n")
+			}
+		}
+	}
+	for fi, f := range specialForms {
+		for si, pre := range cyc {
+			if c.thorough() || fi%len(cyc) == si {
+				add("cyclic", "seq", pre, fmt.Sprintf("(%s cy)\n", f), fmt.Sprintf("(%s cy cy)\n", f), fmt.Sprintf("(%s x cy)\n", f))
+			}
+		}
+	}
+	// (7) texts whose nesting is as deep as they are long, and flat texts that are long: one bracket or prefix
+	// kind repeated, closed and left open; as program text through every entry point, and as a string made by the
+	// script (doubling) and handed to the reader
+	const deepN = 400000
+	opens := []struct{ open, close string }{{"(", ")"}, {"[", "]"}, {"{", "}"}, {"'", ""}, {"^", ""}, {"~", ""}, {"~@", ""}, {"(quote ", ")"}, {"(a ", ")"}, {"[1 ", "]"}, {"{a = ", "}"}, {"(fn [] ", ")"}, {"([{", "}])"}, {"(list 1 ", ")"}, {"{1 + ", "}"}, {"(- ", ")"}, {"a:", ""}, {"a.", ""}, {"- ", ""}, {"(quote (1 \\ ", "))"}}
+	for oi, o := range opens {
+		n := deepN / len(o.open)
+		body := rep(o.open, n)
+		closed := body + "1" + rep(o.close, n) + "\n"
+		open := body + "\n"
+		addx("deep", entries[oi%3], "sandbox", none, closed)
+		addx("deep", entries[(oi+1)%3], "sandbox", none, open, "(+ 1 2)\n")
+		if c.thorough() {
+			addx("deep", entries[(oi+2)%3], "sandbox", none, "(quote "+closed+")\n")
+			addx("deep", "macexpand", "sandbox", none, strings.TrimSpace(closed))
+			addx("deep", "repl", "sandbox", none, closed)
+		}
+	}
+	addx("deep", "repl", "sandbox", none, rep("(", deepN)+rep(")", deepN)+"\n(+ 1 2)\n")
+	addx("deep", "repl", "sandbox", none, "(+ 1 2)\n"+rep("[", deepN)+"\n")
+	for _, o := range []string{"(", "[", "{", "'", "(a ", "{a = "} {
+		add("deep", "eval", fmt.Sprintf("(def s %q)\n(for [(def i 0) (< i 19) (set i (+ i 1))] (set s (concat s s)))\n(len s)\n", o), "(read s)\n", "(+ 1 2)\n")
+	}
+	wide := []string{
+		"(list " + rep("1 ", deepN) + ")\n", "[" + rep("1 ", deepN) + "]\n", "{" + rep("1 + ", deepN) + "1}\n",
+		"(quote (" + rep("a ", deepN) + "))\n", "(+ " + rep("1 ", deepN) + ")\n", rep("1 ", deepN) + "\n",
+		"\"" + rep("s", 2*deepN) + "\"\n", rep("s", 2*deepN) + "\n", rep("(a)\n", deepN/4), "(hash " + rep("a: 1 ", deepN/4) + ")\n",
+		"(a" + rep(".b", deepN/2) + ")\n", rep("9", deepN) + "\n", "{" + rep("a;", deepN) + "}\n", "(cond " + rep("false 1 ", deepN/4) + "2)\n",
+		"(and " + rep("true ", deepN/4) + ")\n", "(begin " + rep("1 ", deepN/4) + ")\n", "(defn w [] " + rep("1 ", deepN/4) + ")\n(w)\n", "// " + rep("c", 2*deepN) + "\n1\n",
+		"/*" + rep("c\n", deepN) + "*/ 1\n", "(let [" + rep("a 1 ", deepN/8) + "] a)\n",
+	}
+	for wi, t := range wide {
+		addx("wide", entries[wi%3], "sandbox", none, t, "(+ 1 2)\n")
+	}
+	// (8) macros whose expansion calls a macro again, without end or to a depth the text decides
+	macs := []string{
+		"(defmac m [] ^(m))\n(m)\n", "(defmac m [x] ^(m ~x))\n(m 1)\n", "(defmac m [x] ^(m (~x)))\n(m 1)\n", "(defmac p [] ^(q))\n(defmac q [] ^(p))\n(p)\n",
+		"(defmac m [] ^(list (m)))\n(m)\n", "(defmac m [] ^(m))\n(defn f [] (m))\n", "(defmac m [] ^(m))\n(macexpand (m))\n", "(defmac m [] ^(let [a 1] (m)))\n(m)\n",
+		"(defmac m [] (list (quote m)))\n(m)\n", "(defmac m [& r] ^(m ~@r ~@r))\n(m 1)\n", "(defmac m [] ^(fn [] (m)))\n(m)\n", "(defmac m [] ^[(m)])\n(m)\n", "(defmac m [] ^{(m)})\n(m)\n",
+		"(defmac m [] ^(eval (quote (m))))\n(m)\n", "(defn r [] (eval (quote (r))))\n(r)\n", "(defn r [x] (+ 1 (r x)))\n(r 1)\n", "(defn r [] (apply r []))\n(r)\n", "(defn r [x] (map r [x]))\n(r 1)\n",
+	}
+	for mi, t := range macs {
+		addx("macrec", entries[mi%2], "sandbox", none, t, "(+ 1 2)\n")
+	}
+	// (9) channels: a program with one thread of control that makes a channel nobody else can reach and sends
+	// and receives on it; the generator states the capacity and the operations
+	for capy := 0; capy <= 2; capy++ {
+		for _, ops := range [][]string{{"recv"}, {"send"}, {"send", "recv"}, {"send", "send"}, {"send", "send", "recv", "recv"}, {"send", "recv", "recv"}, {"send", "send", "send"}} {
+			if !c.thorough() && capy == 2 && len(ops) == 1 {
+				continue
+			}
+			t := fmt.Sprintf("(def ch (makeChan %d))\n", capy)
+			var po []any
+			for i, op := range ops {
+				po = append(po, op)
+				if op == "send" {
+					t += fmt.Sprintf("(send ch %d)\n", i)
+				} else {
+					t += "(<! ch)\n"
+				}
+			}
+			addx("chan", "eval", "sandbox", []any{"chan", capy, po}, t)
+		}
+	}
+	addx("chan", "eval", "sandbox", []any{"chan", 0, []any{"recv"}}, "(<! (makeChan))\n")
+	addx("chan", "eval", "sandbox", []any{"chan", 0, []any{"send"}}, "(send (makeChan) 1)\n")
+	// (10) the REPL: a session of lines of one kind, ended by the end of the input -- between two forms, or inside
+	// the form that the last line leaves open
+	var lines []string
+	for _, f := range specialForms {
+		for i, a := range argShapes {
+			lines = append(lines, fmt.Sprintf("(%s %s)", f, a), fmt.Sprintf("(%s %s %s)", f, a, argShapes[(i*7+3)%len(argShapes)]))
+		}
+	}
+	for ui, name := range uni {
+		if name == "sleep" {
+			continue
+		}
+		a, b := valuePalette[ui%len(valuePalette)], valuePalette[(ui*7+3)%len(valuePalette)]
+		lines = append(lines, "("+name+")", fmt.Sprintf("(%s %s)", name, a), fmt.Sprintf("(%s %s %s)", name, a, b), name)
+	}
+	for _, v := range redefs {
+		lines = append(lines, v, "(def rv "+v+")", "rv", "[rv rv]", "(fn [] rv)", "(field a.b: int64)", "(field rv: int64)")
+	}
+	for _, pre := range cyc {
+		lines = append(lines, strings.Split(strings.TrimSpace(pre), "\n")...)
+		lines = append(lines, "cy", "[cy]", "(def cb [cy])", "(def cb 1)", "(fn [] cy)", "cy.a", "(& cy)", "(def cy 1)")
+	}
+	for i, a := range toks {
+		for j, b := range toks {
+			if isBalancedLine(a + b) {
+				lines = append(lines, a+b, a+b+toks[(i+j)%len(toks)])
+			}
+		}
+	}
+	var enders []string
+	for _, a := range toks {
+		enders = append(enders, a)
+		for _, b := range toks {
+			enders = append(enders, a+b, "(+ 1 "+a+b)
+		}
+	}
+	per := 60
+	nsess := (len(lines) + per - 1) / per
+	for si := 0; si < nsess; si++ {
+		if !(c.thorough() || hashSel(c.seed, si, 1, 2)) {
+			continue
+		}
+		var body []string
+		for _, l := range lines[si*per : min(len(lines), (si+1)*per)] {
+			if isBalancedLine(l) {
+				body = append(body, l)
+			}
+		}
+		cfg := "sandbox"
+		if si%5 == 4 {
+			cfg = "full"
+		}
+		addx("repl", "repl", cfg, none, strings.Join(body, "\n")+"\n"+enders[(si*37+int(c.seed))%len(enders)])
+	}
+	for ei, e := range enders {
+		if c.thorough() || hashSel(c.seed, ei, 1, 12) {
+			addx("repl", "repl", "sandbox", none, "(+ 1 2)\n"+e)
+		}
+	}
 	return cases
+}
+
+// rep(s, n) stands for s repeated n times in the texts of a case; the worker writes it out (expandText) before it
+// hands the text to the interpreter, so that the recorded cases stay small.
+func rep(s string, n int) string {
+	if s == "" || n <= 0 {
+		return ""
+	}
+	return fmt.Sprintf("\x01%d*%s\x02", n, s)
+}
+
+func expandText(t string) string {
+	for {
+		i := strings.IndexByte(t, 1)
+		if i < 0 {
+			return t
+		}
+		j := strings.IndexByte(t[i:], 2)
+		k := strings.IndexByte(t[i:], '*')
+		if j < 0 || k < 0 || k > j {
+			return t
+		}
+		n := 0
+		fmt.Sscanf(t[i+1:i+k], "%d", &n)
+		t = t[:i] + strings.Repeat(t[i+k+1:i+j], n) + t[i+j+1:]
+	}
+}
+
+var reLiteral = regexp.MustCompile(`"[^"\\]*"|'[^'\\]'`)
+
+// isBalancedLine: a line that does not leave a form, a string or a comment open, so that the REPL does not take
+// the lines after it for its continuation
+func isBalancedLine(l string) bool {
+	l = reLiteral.ReplaceAllString(l, "s")
+	if strings.ContainsAny(l, "\"`'\\") || strings.Contains(l, "/*") || strings.Contains(l, "//") || strings.Contains(l, "\n") {
+		return false
+	}
+	depth := 0
+	for _, ch := range l {
+		switch ch {
+		case '(', '[', '{':
+			depth++
+		case ')', ']', '}':
+			depth--
+			if depth < 0 {
+				return false
+			}
+		}
+	}
+	t := strings.TrimSpace(l)
+	for _, suf := range []string{"~", "~@", "^", "#", "$", "&", "=", ":=", "->", "-", "+", "*", "/", ".", ":", ","} {
+		if strings.HasSuffix(t, suf) {
+			return false
+		}
+	}
+	return depth == 0
 }
 
 func mutate(s string, r *rng) string {
@@ -331,7 +725,23 @@ func mutate(s string, r *rng) string {
 
 // ---- worker protocol
 
-func crashWorker(in string, from int, out string) int {
+// sources whose cases end the worker process one by one as long as the defect they look for is there: a worker
+// that has died costs a new process, so after deathCap deaths in a shard the remaining cases of these sources are
+// recorded as not run (and not judged); the other sources are always run
+var deadlySrc = map[string]bool{"cyclic": true, "deep": true, "wide": true, "macrec": true}
+
+const deathCap = 12
+const hungCap = 6
+
+func hungLimitOf(c *crashCase) time.Duration {
+	if c.Src == "chan" {
+		return 8 * time.Second // a handful of evaluation steps
+	}
+	return hungLimit
+}
+
+func crashWorker(in string, from int, out string, skipDeadly bool) int {
+	debug.SetMaxStack(workerMaxStack)
 	var cases []crashCase
 	readLines(in, func(line []byte) {
 		var c crashCase
@@ -350,6 +760,12 @@ func crashWorker(in string, from int, out string) int {
 	defer func() { os.Stdout = old }()
 	for i := from; i < len(cases); i++ {
 		c := cases[i]
+		if skipDeadly && deadlySrc[c.Src] {
+			c.Outs = []any{[]any{"notrun"}}
+			b, _ := json.Marshal(c)
+			f.Write(append(b, '\n'))
+			continue
+		}
 		done := make(chan struct{})
 		go func() {
 			runCrashCase(&c)
@@ -357,11 +773,12 @@ func crashWorker(in string, from int, out string) int {
 		}()
 		select {
 		case <-done:
-		case <-time.After(20 * time.Second):
-			c.Outs = append(c.Outs, []any{"hung"})
-			b, _ := json.Marshal(c)
+		case <-time.After(hungLimitOf(&c)):
+			h := c
+			h.Outs = append(append([]any{}, c.Outs...), []any{"hung"})
+			b, _ := json.Marshal(h)
 			f.Write(append(b, '\n'))
-			return 3 // the goroutine cannot be stopped: restart the worker after this case
+			return 97 // the goroutine cannot be stopped: restart the worker after this case
 		}
 		b, _ := json.Marshal(c)
 		f.Write(append(b, '\n'))
@@ -386,14 +803,22 @@ func countLines(path string) int {
 
 func init() {
 	register("crash", "C01: no input can crash the host (entry points x malformed inputs)", func(args []string) int {
-		var worker bool
+		var worker, replchild, skipDeadly, list bool
 		var from int
+		var cfg string
 		c := commonFlags("crash", args, func(fs *flag.FlagSet) {
 			fs.BoolVar(&worker, "worker", false, "internal: run cases of -in from index -from, append results to -out")
+			fs.BoolVar(&replchild, "replchild", false, "internal: run zygo.Repl on the standard input")
+			fs.BoolVar(&skipDeadly, "skipdeadly", false, "internal: record the cases of the sources that end the worker as not run")
+			fs.BoolVar(&list, "list", false, "debug aid: print the generated cases instead of running them")
+			fs.StringVar(&cfg, "cfg", "sandbox", "internal: interpreter configuration of -replchild")
 			fs.IntVar(&from, "from", 0, "internal")
 		})
+		if replchild {
+			return replChildMain(cfg)
+		}
 		if worker {
-			return crashWorker(c.in, from, c.out)
+			return crashWorker(c.in, from, c.out, skipDeadly)
 		}
 		var mine []crashCase
 		if c.replay != "" {
@@ -411,6 +836,14 @@ func init() {
 				}
 			}
 		}
+		if list {
+			w := newWriter(c.out)
+			for _, cc := range mine {
+				w.write(cc)
+			}
+			w.close()
+			return 0
+		}
 		tmp, err := os.MkdirTemp("", "zvcrash")
 		if err != nil {
 			fatal("%v", err)
@@ -422,14 +855,16 @@ func init() {
 			w.write(cc)
 		}
 		w.close()
-		outFile := c.out
+		outFile, _ := filepath.Abs(c.out)
 		os.Remove(outFile)
 		os.WriteFile(outFile, nil, 0644)
 		self, _ := os.Executable()
+		work := filepath.Join(tmp, "cwd")
+		os.Mkdir(work, 0755)
 		pos := 0
-		hung := 0
+		hung, deaths := 0, 0
 		for pos < len(mine) {
-			if hung >= 6 {
+			if hung >= hungCap {
 				// every hung case costs the worker's full time limit: enough of them are recorded, the rest
 				// of this shard is written as not run (and not judged)
 				f, _ := os.OpenFile(outFile, os.O_APPEND|os.O_WRONLY, 0644)
@@ -441,32 +876,33 @@ func init() {
 				f.Close()
 				break
 			}
-			cmd := exec.Command(self, "crash", "-worker", "-in", inFile, "-from", fmt.Sprint(pos), "-out", outFile)
-			cmd.Dir = tmp
-			cmd.Env = append(os.Environ(), "HOME="+tmp, "TMPDIR="+tmp)
+			wargs := []string{"crash", "-worker", "-in", inFile, "-from", fmt.Sprint(pos), "-out", outFile}
+			if deaths >= deathCap && c.replay == "" {
+				wargs = append(wargs, "-skipdeadly")
+			}
+			cmd := exec.Command(self, wargs...)
+			cmd.Dir = work
+			cmd.Env = append(os.Environ(), "HOME="+work, "TMPDIR="+tmp, "GOMAXPROCS=2")
 			var stderr bytes.Buffer
 			cmd.Stderr = &stderr
 			err := cmd.Run()
 			done := countLines(outFile)
-			if cmd.ProcessState != nil && cmd.ProcessState.ExitCode() == 3 {
+			if cmd.ProcessState != nil && cmd.ProcessState.ExitCode() == 97 && !strings.Contains(stderr.String(), "goroutine ") {
 				hung++
 			}
 			if err == nil && done >= len(mine) {
 				break
 			}
-			if done < len(mine) && (err == nil || cmd.ProcessState == nil || cmd.ProcessState.ExitCode() != 3) {
-				// the worker died while running case `done`: that is the observation
+			if done < len(mine) && (err == nil || cmd.ProcessState == nil || cmd.ProcessState.ExitCode() != 97 || strings.Contains(stderr.String(), "goroutine ")) {
+				// the worker ended while running case `done`: that is the observation
 				cc := mine[done]
-				msg := trunc(stderr.String(), 400)
-				if cmd.ProcessState != nil {
-					msg = fmt.Sprintf("exit=%d %s", cmd.ProcessState.ExitCode(), msg)
-				}
-				cc.Outs = append(cc.Outs, []any{"died", msg})
+				cc.Outs = append(cc.Outs, endOfProcess(cmd.ProcessState, stderr.String()))
 				f, _ := os.OpenFile(outFile, os.O_APPEND|os.O_WRONLY, 0644)
 				b, _ := json.Marshal(cc)
 				f.Write(append(b, '\n'))
 				f.Close()
 				done++
+				deaths++
 			}
 			if done <= pos {
 				done = pos + 1
